@@ -303,6 +303,57 @@ static void poly_snap(vf_rng *r, vf_poly *p, int res, double width) {
     if (p->bbox_u[3] - p->bbox_u[2] >= 3.0) p->n = 0; /* cannot happen for a move of less than a cell; guarded anyway */
 }
 
+/* small polygons whose vertices hug the corners of cells of the fill resolution (offsets of 1e-5 .. 3e-2 cell widths, any
+ * direction): the points where three cells meet are where the rounding of latLngToCell is most delicate, and the containment
+ * modes look at the cell of the polygon's first vertex.  Two forms: a small convex polygon whose first vertex hugs one corner,
+ * or the outline of the cell itself with every corner displaced a little. */
+static int poly_corner(vf_rng *r, H3Index cell, double w, double lng_ref, vf_poly *p) {
+    memset(p, 0, sizeof *p);
+    CellBoundary cb;
+    if (cellToBoundary(cell, &cb) || cb.numVerts < 5) return 0;
+    LatLng v[MAX_CELL_BNDRY_VERTS];
+    for (int i = 0; i < cb.numVerts; i++) {
+        v[i] = cb.verts[i];
+        while (v[i].lng - lng_ref > M_PI) v[i].lng -= 2 * M_PI;
+        while (v[i].lng - lng_ref < -M_PI) v[i].lng += 2 * M_PI;
+        if (fabs(v[i].lat) > 1.45) return 0;
+    }
+    int k = (int)vf_below(r, (uint64_t)cb.numVerts);
+    p->outer_u = malloc(16 * sizeof(LatLng));
+    p->outer_w = malloc(16 * sizeof(LatLng));
+    if (vf_below(r, 3)) {
+        double cl = cos(v[k].lat);
+        double dm = w * pow(10.0, -5.0 + 3.5 * vf_unit(r)), da = vf_unit(r) * 2 * M_PI;
+        LatLng v0 = {v[k].lat + dm * sin(da), v[k].lng + dm * cos(da) / cl};
+        int n = 3 + (int)vf_below(r, 4);
+        double rho = w * pow(10.0, -3.0 + 2.5 * vf_unit(r)), psi = vf_unit(r) * 2 * M_PI;
+        double cy = v0.lat + rho * sin(psi), cx = v0.lng + rho * cos(psi) / cl;
+        p->n = n;
+        p->outer_u[0] = v0;
+        for (int i = 1; i < n; i++) {
+            double a = psi + M_PI + 2 * M_PI * (i + 0.3 * (vf_unit(r) - 0.5)) / n;
+            p->outer_u[i].lat = cy + rho * sin(a);
+            p->outer_u[i].lng = cx + rho * cos(a) / cl;
+        }
+    } else {
+        p->n = cb.numVerts;
+        for (int i = 0; i < cb.numVerts; i++) {
+            int j = (k + i) % cb.numVerts;
+            double dm = w * pow(10.0, -5.0 + 3.5 * vf_unit(r)), da = vf_unit(r) * 2 * M_PI;
+            p->outer_u[i].lat = v[j].lat + dm * sin(da);
+            p->outer_u[i].lng = v[j].lng + dm * cos(da) / cos(v[j].lat);
+        }
+    }
+    if (!loop_simple(p->outer_u, p->n)) {
+        free(p->outer_u), free(p->outer_w);
+        p->outer_u = p->outer_w = NULL;
+        p->n = 0;
+        return 0;
+    }
+    poly_finish(p);
+    return p->bbox_u[3] - p->bbox_u[2] < 3.0;
+}
+
 /* the standard polygon case of C07/C15: everything derived from one 64-bit seed (tier independent) */
 /* build the polygon of a case from its seed */
 int vf_poly_case(uint64_t seed, vf_poly *P, int *res_out, char *desc, size_t dlen) {
@@ -339,12 +390,15 @@ int vf_poly_case(uint64_t seed, vf_poly *P, int *res_out, char *desc, size_t dle
     o.nholes = vf_below(&r, 3) == 0 ? 1 + (int)vf_below(&r, 3) : 0;
     o.holes_cw = (int)vf_below(&r, 2);
     o.hole_scale = 0.5 + 1.5 * vf_unit(&r);
-    /* seeds ending in binary 110 get one of the two special shapes (the listed witnesses of repaired defects end otherwise) */
+    /* seeds ending in binary 110 get one of the special shapes (the listed witnesses of repaired defects end otherwise) */
     const char *shape = "";
     if ((seed & 7) == 6 && !(seed >> 3 & 1)) {
         if ((seed >> 4 & 3) == 1) o.nholes = 4 + (int)vf_below(&r, 25); /* a quarter of them: 4..28 slit holes */
         if (!poly_axis(&r, &o, P)) return 0;
         shape = "axis-aligned, ";
+    } else if ((seed & 7) == 6 && o.radius <= 1.5 * w) {
+        if (!poly_corner(&r, ch, w, c.lng, P)) return 0;
+        shape = "hugging cell corners, ";
     } else {
         if (!vf_poly_gen(&r, &o, P)) return 0;
         if ((seed & 7) == 6 && o.radius > 1.5 * w) {
